@@ -105,3 +105,10 @@ SPECS["C43"] = dict(
     stubs=["ConfigParser::strtokFile hands out the harness's tokens", "self_destruct() throws (the real one exits): the configuration is rejected", "libc strtoll/strchr models", "debugs() disabled"],
     outside="lists longer than the bound; tokens that are not digits with at most one '-' (rejected by xatoll's trailing-garbage test, not examined here); probes outside -1..65536 (ACLIntRange::match computes i+1 in int)",
 )
+
+# ---- further specs live one file per property in harness/specs.d/<id>.py; each defines SPEC (a dict as above) and may use SBUF/TOK
+import os as _os, glob as _glob
+for _f in sorted(_glob.glob(_os.path.join(_os.path.dirname(_os.path.abspath(__file__)), "specs.d", "C*.py"))):
+    _ns = dict(SBUF=SBUF, TOK=TOK)
+    exec(compile(open(_f).read(), _f, "exec"), _ns)
+    SPECS[_os.path.basename(_f)[:-3]] = _ns["SPEC"]
